@@ -77,7 +77,7 @@ def run(ctx):
         upd = [s for s in loops[0].body if isinstance(s, ast.Assign) and isinstance(s.targets[0], ast.Name) and s.targets[0].id in names_in(s.value)]
         if len(upd) == 1:
             acc = upd[0].targets[0].id
-    inits = [n for n in walk_local(r.node) if isinstance(n, ast.Assign) and acc and norm(n.targets[0]) == acc and isinstance(n.value, ast.Name) and n.value.id in seed_vars]
+    inits = [n for n in walk_local(r.node) if isinstance(n, ast.Assign) and acc and norm(n.targets[0]) == acc and ((isinstance(n.value, ast.Name) and n.value.id in seed_vars) or (not (loops and any(n is x for x in ast.walk(loops[0]))) and p.try_fold(r.mod, n.value, None) == spec.RABIN_EMPTY))]
     ctx.check("C14.R4", "the accumulator updated once per input byte is initialised from the seed", bool(acc) and len(inits) == 1, r.where(loops[0]) if loops else r.where(), f"rabin_fingerprint: accumulator {acc}, init {[norm(i) for i in inits]}", "the loop over the data does not start from the seed (empty text must map to the seed)")
     rets = [n for n in walk_local(r.node) if isinstance(n, ast.Return)]
     ok = False
